@@ -11,7 +11,12 @@ for T, key in (('double', 'real'), ('dsplib::cmplx_t', 'cmplx')):
        requires=[('sizes', 'And(win.len >= 1, win.len <= 1048576, nfft >= 1, nfft <= 1048576, x.len >= win.len, x.len <= 1073741824, noverlap >= 0)'),
                  ('window_power', 'And(DOT(data(win), 0, 1, data(win), win.len) > 0, SUMR(data(win), win.len) != 0)')],
        ensures=[('length', 'result.len == nfft'),
-                ('non_negative', 'forall(lambda k: Implies(And(0 <= k, k < nfft), result[k] >= 0))')],
+                ('non_negative', 'forall(lambda k: Implies(And(0 <= k, k < nfft), result[k] >= 0))'),
+                # the constants of the estimate: window-power compensation (density: sum w^2; power: (sum w)^2), hop and segment count
+                ('local:normalisation', 'exists_w(lambda wp, ns, st: And(wp == If(type == 0, DOT(data(win), 0, 1, data(win), win.len), SUMR(data(win), win.len) * SUMR(data(win), win.len)), '
+                                        'st == win.len - noverlap, ns == tdiv(x.len - win.len, win.len - noverlap) + 1), winpow, num_segments, stride)')],
+       asserts_on=[('call:operator/=', [('averaged_over_segments', 'arg0 == num_segments')]),
+                   ('call:operator/', [('each_periodogram_divided_by_window_power', 'arg0 == winpow')])],
        loops={1: {'inv': [('shape', 'And(pxx.len == nfft, seg.len == winlen, winpow > 0, num_segments >= 1, stride >= 1)'),
                           ('non_negative', 'forall(lambda k: Implies(And(0 <= k, k < nfft), pxx[k] >= 0))')]}})
 
